@@ -132,7 +132,7 @@ add('M28b', [('SRC/zsp_blas2.c', "    else ky =  - (leny - 1) * incy;", "    els
 add('M14', x4('SRC/?column_dfs.c', "		mem_error = ?LUMemXpand(jcol, nextl, LSUB, &nzlmax, Glu);\n		if ( mem_error ) return (mem_error);\n		lsub = Glu->lsub;\n	    }\n            if ( kmark",
               "		mem_error = ?LUMemXpand(jcol, nextl, LSUB, &nzlmax, Glu);\n		if ( mem_error ) return (mem_error);\n	    }\n            if ( kmark"), ['C07'],
     note='lsub not re-read after LSUB expansion')
-add('M15', x4('SRC/?column_bmod.c', "	lusup = (? *) Glu->lusup;\n	lsub = Glu->lsub;\n    }\n\n    for (isub", "	lusup = (? *) Glu->lusup;\n    }\n\n    for (isub"), ['C07'],
+add('M15', [('SRC/dcolumn_bmod.c', "	lusup = (double *) Glu->lusup;\n	lsub = Glu->lsub;\n    }\n\n    for (isub", "	lusup = (double *) Glu->lusup;\n    }\n\n    for (isub")], ['C07'],
     note='lsub kept stale after LUSUP expansion (moves in a workspace)')
 add('M16', x4('SRC/?memory.c', "#define StackFull(x)         ( x + Glu->stack.used >= Glu->stack.size )", "#define StackFull(x)         ( x + Glu->stack.top1 >= Glu->stack.size )"), ['C08'],
     note='fullness test ignores the tail end')
